@@ -78,3 +78,9 @@ pub assume_specification<T> [ std::option::Option::<T>::replace ] (o: &mut std::
         r == *old(o),
         *final(o) == Some(v),
 ;
+
+// std: Result::unwrap_or "Returns the contained Ok value or a provided default."
+pub assume_specification<T, E> [std::result::Result::<T, E>::unwrap_or] (r: std::result::Result<T, E>, default: T) -> (o: T)
+    where E: std::marker::Destruct, T: std::marker::Destruct,
+    ensures o == (match r { Ok(v) => v, Err(_) => default }),
+;
